@@ -482,6 +482,7 @@ func runData(c Cfg) *Result {
 	}
 	g := NewG(c, chain.Options{GenesisTime: T0, HasherKind: kind})
 	g.bump("hasher:" + kind)
+	g.rollbackEvery = 6
 	a := g.App
 	contents := make([][]byte, 10)
 	for i := range contents {
